@@ -185,6 +185,7 @@ def run(ctx):
                 ctx.violate(key, 'array %s between different dimensions did not raise UnitsError' % j['op'], j, 'UnitsError', r)
         elif da == db and j['op'] in ('add', 'sub') and ('exc' in r or r.get('kind') != 'arrqty'):
             ctx.violate(key, 'array %s of same-dimension quantities failed' % j['op'], j, 'array quantity', r)
+    c10.recombination_oracle(ctx)
     # correspondence (scalars)
     rows = []
     for j, r in zip(jobs, rs):
